@@ -162,6 +162,10 @@ type threadCtx struct {
 	log []string
 	// reader oracle output
 	bad []readerFinding
+	// handle life cycle (actions CycleHandle / Reopen): open one more handle on the same store for this thread; owns = no other
+	// thread uses x.h, so this thread may close and replace it
+	open func() (*handle, error)
+	owns bool
 }
 
 type readerFinding struct {
@@ -274,6 +278,33 @@ func (x *threadCtx) do(a action) {
 		var k []byte
 		k, err = x.h.sks.GetHMACSecretKey(id)
 		x.explain(a, ringPath(a.Client, "hmac"), err, []string{dg(k)}, false)
+	case "CycleHandle":
+		// another tool run on the same store: open a handle, maybe look at one ring, close it again
+		if x.open == nil {
+			err = fmt.Errorf("skipped: no handle factory")
+			break
+		}
+		var h *handle
+		if h, err = x.open(); err == nil {
+			if a.Pick%2 == 1 {
+				h.ks.OpenKeyRing(ringPath(a.Client, a.Ring)) // recorded like every other read
+			}
+			h.close()
+			x.r.Count("v2_handles_opened_and_closed", 1)
+		}
+	case "Reopen":
+		// this thread's process restarts: its handle is closed and a new one opened on the same store
+		if x.open == nil || !x.owns {
+			err = fmt.Errorf("skipped: handle is shared")
+			break
+		}
+		x.h.close()
+		var h *handle
+		if h, err = x.open(); err == nil {
+			x.h = h
+			x.rings = map[string]api.MutableKeyRing{}
+			x.r.Count("v2_handles_reopened", 1)
+		}
 	default:
 		panic("unknown action " + a.Kind)
 	}
